@@ -33,10 +33,14 @@ Proof.
       split; [cbn [length]; lia|constructor].
   - cbn [length deficit]. destruct (remove_one b avail) as [avail'|] eqn:Er.
     + pose proof (remove_one_some _ _ _ Er) as Hp1. pose proof (Permutation_length Hp1) as Hl1. cbn [length] in Hl1.
-      rewrite <- (IH avail' k). split; intros [fill [Hl Hp]]; exists fill; (split; [exact Hl|]).
-      * apply (Permutation_cons_inv (a := b)). rewrite Hp.
+      split.
+      * intros [fill [Hl Hp]]. destruct (proj1 (IH avail' k)) as [H1 H2]; [|lia].
+        exists fill. split; [exact Hl|].
+        apply (Permutation_cons_inv (a := b)). rewrite Hp.
         change (b :: avail' ++ fill) with ((b :: avail') ++ fill). apply Permutation_app_tail. exact Hp1.
-      * rewrite Hp. change (b :: avail' ++ fill) with ((b :: avail') ++ fill).
+      * intros [Hl Hd]. destruct (proj2 (IH avail' k)) as [fill [Hf Hp]]; [lia|].
+        exists fill. split; [exact Hf|].
+        rewrite Hp. change (b :: avail' ++ fill) with ((b :: avail') ++ fill).
         apply Permutation_app_tail. apply Permutation_sym. exact Hp1.
     + pose proof (remove_one_none _ _ Er) as Hnin. split.
       * intros [fill [Hl Hp]].
